@@ -123,6 +123,22 @@ def record(args):
             m = comp.compile(SF.multiply(c1, c2))
             ok = close(ev(m), ev(cc1) * ev(cc2))
             why = f"{ev(m)[:3]} vs {(ev(cc1) * ev(cc2))[:3]}"
+            if ok:
+                # iterated products: both operands of the outer product are themselves products
+                # (unnormalised Gaussians with a log-partition), balanced and chained
+                p12, p21 = SF.multiply(c1, c2), SF.multiply(c2, c1)
+                bal = comp.compile(SF.multiply(p12, p21))
+                ok = close(ev(bal), (ev(cc1) * ev(cc2)) ** 2, 1e-6)
+                why = f"(c1*c2)*(c2*c1): {ev(bal)[:3]} vs {((ev(cc1) * ev(cc2)) ** 2)[:3]}"
+            if ok:
+                try:
+                    chain = SF.multiply(SF.multiply(c1, c2), c1)
+                except Exception:  # pylint: disable=broad-except
+                    chain = None            # multiply may refuse (C04: "or raises an error")
+                if chain is not None:
+                    ch = comp.compile(chain)
+                    ok = close(ev(ch), ev(cc1) ** 2 * ev(cc2), 1e-6)
+                    why = f"(c1*c2)*c1: {ev(ch)[:3]} vs {(ev(cc1) ** 2 * ev(cc2))[:3]}"
         elif rel == "marginal":
             z = const(comp.compile(SF.integrate(c1)))
             ref = quad_full(lambda x: ev(cc1, x))
